@@ -90,6 +90,8 @@ const prelude = `(define-fun tdiv ((a Int) (b Int)) Int (ite (>= a 0) (div a b) 
 (define-fun b2i ((b Bool)) Int (ite b 1 0))
 (declare-datatypes ((Slice 0)) (((mk_Slice (sl_ref Int) (sl_off Int) (sl_len Int) (sl_cap Int)))))
 (declare-fun tagof (Int) Int)
+(declare-fun ix (Int Int) Int)
+(assert (forall ((a Int) (b Int)) (! (= (ix a b) (+ a b)) :pattern ((ix a b)))))
 (declare-fun bytes2nat ((Seq Int)) Int)
 (declare-fun nat2bytes (Int) (Seq Int))
 (declare-fun bcmp ((Seq Int) (Seq Int)) Int)
